@@ -40,6 +40,13 @@ Explain(kind, r) ==
   ELSE IF kind \in {"described-validator-differs", "described-hash256-differs", "describe-not-a-fixpoint"} /\ r.namedinter
           /\ Half(r.vec1, 1) = Half(r.vec2, 1) /\ r.vec1 # r.vec2 /\ "strictPerInterMember" \in Open
   THEN "strictPerInterMember"
+  \* Known deviation "unrolledRecursionDigest": hash256 numbers the named types on the path and writes a back reference; a type
+  \* that is an unrolling of a recursive named type ([number, ...B[]] for B = [number, ...B[]]) gets another digest than B
+  \* although it is the same type.  describe() inlines aliases that are referenced once; when that makes the outer type
+  \* structurally equal to the body of the named type, the compiler substitutes the reference and the digest changes while
+  \* the validator stays the same.  r.recursive: the program has a recursive declaration (syntactic projection).
+  ELSE IF kind = "described-hash256-differs" /\ r.vec2 = r.vec1 /\ r.recursive /\ "unrolledRecursionDigest" \in Open
+  THEN "unrolledRecursionDigest"
   ELSE IF kind \in {"described-hash256-differs", "describe-not-a-fixpoint"} /\ r.vec2 = r.vec1 /\ r.refunder
           /\ "aliasAtMemberChangesDigest" \in Open
   THEN "aliasAtMemberChangesDigest"
